@@ -38,9 +38,12 @@ type c16State struct {
 	u2Server, u2AE, u2Policy                string
 	hasS3, hasL3, hasCp2, hasBest, hasC3    bool
 	hasS4                                   bool
+	u2Second                                string // second server of u2 ("" = none)
+	u2Swap, u2BackupFirst                   bool
 	cpGzip                                  uint
 	cpKeys                                  string // which level keys the cp profile carries: both | gzip | br
 	c2Size                                  int
+	c1Size                                  int
 	c2Store                                 string
 }
 
@@ -60,14 +63,14 @@ func (st *c16State) config() Config {
 	if st.hasBest {
 		c.Compresses = append(c.Compresses, CompressCfg{Name: "bestCompression", Levels: map[string]uint{"gzip": 1, "br": 1}})
 	}
-	c.Caches = []CacheCfg{{Name: "c1", Size: 1000, HitForPass: "1s"}, {Name: "c2", Size: st.c2Size, HitForPass: "1s", Store: st.c2Store}}
+	c.Caches = []CacheCfg{{Name: "c1", Size: st.c1Size, HitForPass: "1s"}, {Name: "c2", Size: st.c2Size, HitForPass: "1s", Store: st.c2Store}}
 	if st.hasC3 {
 		// shares the store of c2 (one store URL may back several caches)
 		c.Caches = append(c.Caches, CacheCfg{Name: "c3", Size: 500, HitForPass: "2s", Store: st.c2Store})
 	}
 	c.Upstreams = []UpstreamCfg{
 		{Name: "u1", Policy: "first", Servers: []UpstreamSrv{{Addr: "http://" + originA}}},
-		{Name: "u2", Policy: st.u2Policy, AcceptEncoding: st.u2AE, Servers: []UpstreamSrv{{Addr: "http://" + st.u2Server}}},
+		{Name: "u2", Policy: st.u2Policy, AcceptEncoding: st.u2AE, Servers: st.u2Servers()},
 		{Name: "u3", Policy: "first", Servers: []UpstreamSrv{{Addr: "http://" + originC}}},
 	}
 	l2 := LocationCfg{Name: "l2", Upstream: st.l2Upstream, Prefixes: []string{"/var"}, ProxyTimeout: st.l2Timeout}
@@ -118,6 +121,18 @@ func (st *c16State) config() Config {
 	return c
 }
 
+func (st *c16State) u2Servers() []UpstreamSrv {
+	list := []UpstreamSrv{{Addr: "http://" + st.u2Server}}
+	if st.u2Second != "" && st.u2Second != st.u2Server {
+		list = append(list, UpstreamSrv{Addr: "http://" + st.u2Second})
+		if st.u2Swap {
+			list[0], list[1] = list[1], list[0]
+		}
+		list[0].Backup = st.u2BackupFirst
+	}
+	return list
+}
+
 func (st *c16State) mutate(g *Gen) string {
 	switch g.n(0, 15) {
 	case 0:
@@ -165,10 +180,23 @@ func (st *c16State) mutate(g *Gen) string {
 		st.l2Upstream = pick(g, "u2", "u3")
 		return "l2.upstream=" + st.l2Upstream
 	case 10:
-		st.u2Server = pick(g, originB, originC)
-		st.u2AE = pick(g, "", "gzip", "br")
-		st.u2Policy = pick(g, "first", "roundRobin", "")
-		return "u2=" + st.u2Server + "/" + st.u2AE
+		switch g.n(0, 3) {
+		case 0:
+			st.u2AE = pick(g, "", "gzip", "br") // only the Accept-Encoding changes
+		case 1:
+			st.u2Second = pick(g, "", originB, originC)
+			st.u2Swap = g.p(0.5)
+			st.u2BackupFirst = g.p(0.5)
+			st.u2Policy = "first"
+		case 2:
+			st.u2Swap = !st.u2Swap // only the order / the backup flag changes
+			st.u2BackupFirst = g.p(0.5)
+		default:
+			st.u2Server = pick(g, originB, originC)
+			st.u2AE = pick(g, "", "gzip", "br")
+			st.u2Policy = pick(g, "first", "roundRobin", "")
+		}
+		return fmt.Sprintf("u2=%s+%s/swap=%v/backupFirst=%v/%s/%s", st.u2Server, st.u2Second, st.u2Swap, st.u2BackupFirst, st.u2AE, st.u2Policy)
 	case 11:
 		switch g.n(0, 3) {
 		case 0:
@@ -200,7 +228,7 @@ func (st *c16State) mutate(g *Gen) string {
 func genC16(g *Gen) *Plan {
 	p := &Plan{Profile: "C16", Seed: g.Seed, Policy: g.policy(), ClockMenuMs: []int{300, 1000}, ClockWeight: pick(g, 0.0, 0.02), MaxSteps: 8000}
 	st := &c16State{s2MinLen: pick(g, "", "100", "2kb"), s2Filter: pick(g, "", "json"), s2Compress: "cp", s2Cache: "c2", s2Locs: []string{"l2"},
-		l2Upstream: "u2", u2Server: originB, u2Policy: "first", cpGzip: 6, cpKeys: "both", c2Size: 1000}
+		l2Upstream: "u2", u2Server: originB, u2Policy: "first", cpGzip: 6, cpKeys: "both", c2Size: 1000, c1Size: pick(g, 1000, 100, 5000, 1001)}
 	if g.p(0.4) {
 		st.c2Store = storeURL
 		st.c2Size = pick(g, 8, 8, 1000)
@@ -264,6 +292,11 @@ func genC16(g *Gen) *Plan {
 	q := sleepOp(11000, true)
 	q.Quiesce = true
 	p.Ops = append(p.Ops, q)
+	if g.p(0.5) && len(p.Configs) > 1 {
+		// the final configuration is applied once more (any later, unrelated update does that):
+		// whatever could not be started earlier must be started now
+		p.Ops = append(p.Ops, Op{Kind: OpReload, Config: len(p.Configs) - 1, Barrier: true, Quiesce: true}, Op{Kind: "noop", Barrier: true, Quiesce: true})
+	}
 	for _, k := range stableKeys {
 		op := reqOp("GET", hostA, k)
 		op.Tag = "stable-after"
@@ -378,7 +411,7 @@ func obsVector(o *Outcome, v *View) string {
 			uh = append(uh, k+"="+strings.Join(vs, ","))
 		}
 		sort.Strings(uh)
-		fmt.Fprintf(&b, " up[%s %s %s?%s hdr(%s)]", c.Target, c.Method, c.Path, c.RawQuery, strings.Join(uh, ";"))
+		fmt.Fprintf(&b, " up[%s %s %s?%s hdr(%s)]", spreadTarget(&o.Plan.Configs[len(o.Plan.Configs)-1], c.Target), c.Method, c.Path, c.RawQuery, strings.Join(uh, ";"))
 	}
 	return b.String()
 }
@@ -462,7 +495,7 @@ func oracleC16(o *Outcome) []Violation {
 						"client op %d @%s (not in the final configuration, removed more than 10s ago): %s status=%d", v.R.Op, v.R.Addr, v.Kind, statusOf(v)))
 				}
 			} else if v.Kind == "refused" {
-				if readded(o.Plan, v.R.Addr) {
+				if readded(o.Plan, v.R.Addr) && !retriedAfterRelease(o, v.R.Addr) {
 					out = append(out, violation("C16", "readded-server-not-listening", "server re-added on an address whose previous server had not finished its graceful close never listens",
 						"client op %d @%s: the address was removed and configured again by a later update; the new server's listen failed (address still held by the closing one) and is not retried: connection refused although the final configuration has the server [%s]", v.R.Op, v.R.Addr, o.Plan.Notes))
 				} else {
@@ -482,7 +515,7 @@ func oracleC16(o *Outcome) []Violation {
 		if b == nil {
 			continue
 		}
-		if a.Kind == "refused" && readded(o.Plan, a.R.Addr) {
+		if a.Kind == "refused" && readded(o.Plan, a.R.Addr) && !retriedAfterRelease(o, a.R.Addr) {
 			continue // reported once as readded-server-not-listening
 		}
 		o.Hist.Probes["probe-pairs-compared"]++
@@ -533,4 +566,52 @@ func readded(p *Plan, addr string) bool {
 		}
 	}
 	return false
+}
+
+// retriedAfterRelease: after the closing server finally released the address, another
+// configuration update was applied - pike starts every configured server that is not
+// listening on each update, so from then on the address must be served.
+func retriedAfterRelease(o *Outcome, addr string) bool {
+	released := -1
+	for _, ev := range o.Hist.Events {
+		if ev.Kind == "listener-closed" && ev.Text == addr {
+			released = ev.Seq
+		}
+	}
+	if released < 0 {
+		return false
+	}
+	for _, m := range o.Hist.Misc {
+		if m.Kind == "reload" && m.InvokeSeq > released && m.ReturnSeq > 0 {
+			return true
+		}
+	}
+	return false
+}
+
+// spreadTarget: under a spreading policy (round robin / random) any server of the upstream
+// may receive a given request; which one depends on how many requests came before.
+func spreadTarget(cfg *Config, target string) string {
+	for _, u := range cfg.Upstreams {
+		if len(u.Servers) < 2 || u.Policy == "first" || u.Policy == "leastconn" {
+			continue
+		}
+		var all []string
+		in := false
+		for _, sv := range u.Servers {
+			a := strings.TrimPrefix(sv.Addr, "http://")
+			if sv.Backup {
+				continue
+			}
+			all = append(all, a)
+			if a == target {
+				in = true
+			}
+		}
+		if in && len(all) > 1 {
+			sort.Strings(all)
+			return "any of " + strings.Join(all, ",")
+		}
+	}
+	return target
 }
